@@ -516,8 +516,17 @@ func ruleC12Update(c *Ctx) {
 		for _, call := range findCalls(f, func(cal *ssa.Function) bool { return calleeNameIs(cal, "workspace.Workspace).UpdateFile") }) {
 			n++
 			bad := ""
+			var text ssa.Value
+			if args := call.Call.Args; len(args) > 0 {
+				text = args[len(args)-1]
+			}
 			for _, cc := range controlDeps(call.Block()) {
 				for v := range backSlice(cc.Cond) {
+					if text != nil && v == text {
+						if _, isConst := v.(*ssa.Const); !isConst {
+							bad = "the text that is handed over (its length, its content)"
+						}
+					}
 					switch x := v.(type) {
 					case *ssa.FieldAddr:
 						if nm := fieldVarOfAddr(x).Name(); nm == "Text" || nm == "ContentChanges" {
